@@ -13,7 +13,7 @@ def step (line : String) : String :=
 partial def loop (hin hout : IO.FS.Stream) : IO Unit := do
   let line ← hin.getLine
   if line.isEmpty then return ()
-  hout.putStrLn (step (line.dropRightWhile (fun c => c == '\n' || c == '\r')))
+  hout.putStrLn (step (line.trimAscii.toString))
   hout.flush
   loop hin hout
 
